@@ -76,9 +76,14 @@ fn common_fields(kind: &str, args: &[OsString], own_fds: &[(i32, String)]) -> St
     let ppid = unsafe { libc::getppid() };
     let pgid = unsafe { libc::getpgid(0) };
     let cwd = std::env::current_dir().map(|p| p.as_os_str().as_bytes().to_vec()).unwrap_or_default();
+    let name = std::env::args_os()
+        .next()
+        .map(|a| std::path::Path::new(&a).file_name().map(|s| s.to_string_lossy().to_string()).unwrap_or_default())
+        .unwrap_or_default();
     format!(
-        "\"k\":\"{}\",\"argv\":[{}],\"pid\":{},\"ppid\":{},\"pgid\":{},\"cwd\":\"{}\",\"fds\":{}",
+        "\"k\":\"{}\",\"name\":\"{}\",\"argv\":[{}],\"pid\":{},\"ppid\":{},\"pgid\":{},\"cwd\":\"{}\",\"fds\":{}",
         kind,
+        name,
         argv.join(","),
         pid,
         ppid,
